@@ -283,6 +283,8 @@ def finish_batch(prop, tier, verif_seed, results, t0, cfg):
         for key, (r, v) in list(seen.items())[:3]:
             case = r['case']
             sb = cfg.get('shrink_s', 60)
+            if os.environ.get('SIMDASSH_NO_SHRINK'):
+                sb = 0          # sensitivity self-test: only the verdict
             try:
                 small, v2, tried = shrink(prop, case, v, sb)
             except BaseException:
